@@ -127,7 +127,7 @@ func (v wrapperValue) Int() int {
 	}
 	// integers of the other widths
 	switch rv := reflect.ValueOf(v.value); rv.Kind() {
-	case reflect.Int8, reflect.Int16, reflect.Int32, reflect.Int64:
+	case reflect.Int, reflect.Int8, reflect.Int16, reflect.Int32, reflect.Int64: // reflect.Int: named int types
 		if n := rv.Int(); int64(int(n)) == n {
 			return int(n)
 		}
